@@ -15,7 +15,7 @@ pub fn prop() -> Prop {
     Prop {
         id: "C13",
         level: "exploration",
-        rule: "(1) all sequences up to depth d of array/string operations over three names: declare an array (length 0-3) or a string (0-3 characters drawn from 1-, 2-, 3- and 4-byte code points), alias, nest, read at the boundary indices, write, lengte, pass to a function that writes, each followed by a dump of every name through every alias, rendered as one program and compared with the reference interpreter; (2) the complete index sweep: every length 0..6 x every index -(len+2)..(len+2) x {get, set, set with a wrong-typed value, failed access followed by a re-read of every element} on arrays and on strings of every character-width mix; every value type as index and as stored value. Non-trivial = the program performs at least one indexed access and is defined by the model; distinct = distinct texts",
+        rule: "(1) all sequences up to depth d of array/string operations over three names: declare an array (length 0-3) or a string (0-3 characters drawn from 1-, 2-, 3- and 4-byte code points), alias, nest, read at the boundary indices, write, lengte, pass to a function that writes, each followed by a dump of every name through every alias, rendered as one program and compared with the reference interpreter; (2) the complete index sweep: every length 0..6 x every index -(len+2)..(len+2) x {get, set, set with a wrong-typed value, failed access followed by a re-read of every element} on arrays and on strings of every character-width mix; every value type as index and as stored value; (3) self-consistency where the model is silent (an element of a string replaced by zero or several characters, 16 strings x every index x 9 replacements x a second replacement): the printed text, lengte and character-by-character reading from both ends must describe the same string and the first index outside it must be refused. Non-trivial = the program performs at least one indexed access and is defined by the model; distinct = distinct texts",
         assumptions: &["string aliasing and non-character replacement are unspecified (U8) and excluded", "reference semantics of arrays and code-point indexing of strings as in refint (DESIGN 4.2)"],
         run,
         replay,
@@ -234,21 +234,110 @@ fn sweep(sh: &mut Shard) {
     }
 }
 
+fn consistency_one(sh: &mut Shard, prefix: &str) {
+    use crate::outcome::{run_text, ImplEnd};
+    use crate::refint::ErrKind;
+    let prefix = prefix.to_string();
+    let p1 = format!("{prefix} print(s); print(lengte(s))");
+    sh.begin(&|| p1.clone());
+    sh.count("family:self-consistency");
+    let o = run_text(&p1, opts());
+    match &o.end {
+        ImplEnd::Value(_) => {}
+        ImplEnd::Error(_) => {
+            sh.count("replacement-refused");
+            return;
+        }
+        other => {
+            sh.violation("self-consistency", json!({"program": p1, "prefix": prefix}), format!("{}", crate::common::impl_end_text(other)));
+            return;
+        }
+    }
+    sh.nontrivial(&p1);
+    sh.outcome(&o.output);
+    let mut lines = o.output.lines();
+    let (text, len_line) = (lines.next().unwrap_or("").to_string(), lines.next().unwrap_or("").to_string());
+    let cs: Vec<char> = text.chars().collect();
+    let n = cs.len();
+    if len_line != n.to_string() {
+        sh.violation("self-consistency", json!({"program": p1, "prefix": prefix}), format!("the string prints as {text:?} ({n} characters) but lengte says {len_line}"));
+        return;
+    }
+    let mut p2 = prefix.clone();
+    let mut expect = String::new();
+    for j in 0..n {
+        p2.push_str(&format!(" print(s[{j}]); print(s[{}]);", -(j as i64) - 1));
+        expect.push_str(&format!("{}\n{}\n", cs[j], cs[n - 1 - j]));
+    }
+    p2.push_str(" lengte(s)");
+    let o2 = run_text(&p2, opts());
+    if !matches!(o2.end, ImplEnd::Value(_)) || o2.output != expect {
+        sh.violation(
+            "self-consistency",
+            json!({"program": p2, "prefix": prefix}),
+            format!("the string prints as {text:?} but reading it character by character gives {:?} ({})", o2.output, crate::common::impl_end_text(&o2.end)),
+        );
+        return;
+    }
+    for j in [n as i64, -(n as i64) - 1] {
+        let p3 = format!("{prefix} s[{j}]");
+        let o3 = run_text(&p3, opts());
+        if !matches!(o3.end, ImplEnd::Error(ErrKind::Index)) {
+            sh.violation("self-consistency", json!({"program": p3, "prefix": prefix}), format!("index {j} of a string of {n} characters gives {} instead of an index error", crate::common::impl_end_text(&o3.end)));
+        }
+    }
+}
+
+/// Where the reference model is silent (U8: an element of a string replaced by text that is not exactly
+/// one character) the string must still be *measured and indexed by character*: whatever text the
+/// replacement produced (as print shows it), `lengte` is its number of characters, s[j] / s[-j] is its
+/// j-th character from the front / back, and the first index outside it is refused. No expected text is
+/// assumed, only the agreement of the three views of the same string.
+fn self_consistency(sh: &mut Shard) {
+    let chars = ["a", "é", "€", "😀"];
+    let reps = ["", "ab", "éa", "aé", "€", "a€b", "😀", "éé", "😀😀"];
+    let mut subjects: Vec<String> = Vec::new();
+    for len in 1..=4usize {
+        for rot in 0..4 {
+            subjects.push((0..len).map(|i| chars[(i + rot) % 4]).collect());
+        }
+    }
+    for subj in &subjects {
+        let n0 = subj.chars().count() as i64;
+        for i in -n0..n0 {
+            for rep in reps {
+                for rep2 in ["", "é", "xy"] {
+                    if !sh.mine() {
+                        continue;
+                    }
+                    // an optional second replacement at the front, after the first one changed the offsets
+                    let second = if rep2.is_empty() { String::new() } else { format!(" s[0] = \"{rep2}\";") };
+                    let prefix = format!("stel s = \"{subj}\"; s[{i}] = \"{rep}\";{second}");
+                    consistency_one(sh, &prefix);
+                }
+            }
+        }
+    }
+}
+
 fn run(sh: &mut Shard) {
     let tier = sh.cfg.tier;
     sweep(sh);
+    self_consistency(sh);
     sequences(sh, if tier == Tier::Quick { 3 } else { 4 });
 }
 
 fn replay(sh: &mut Shard, case: &Value) {
     sh.mine();
-    if let Some(p) = case["program"].as_str() {
+    if let Some(prefix) = case["prefix"].as_str() {
+        consistency_one(sh, prefix);
+    } else if let Some(p) = case["program"].as_str() {
         crate::common::differential_text(sh, "replay", p, None, opts());
     }
 }
 
 fn vacuity(m: &Merged) -> Option<String> {
-    for fam in ["sweep", "sweep-types", "sequences"] {
+    for fam in ["sweep", "sweep-types", "self-consistency", "sequences"] {
         if m.counters.get(&format!("family:{fam}")).copied().unwrap_or(0) < 100 {
             return Some(format!("family {fam} produced fewer than 100 cases"));
         }
